@@ -12,6 +12,7 @@ from __future__ import annotations
 
 import ast
 import copy
+import random
 import inspect
 import types
 
@@ -36,6 +37,72 @@ PROBES = [
     # every block construct indented by four columns: what it is depends on whether `code` is enabled *now*
     "    # h\n\n    > q\n\n    - i\n\n    ***\n\n    ```\n    x\n    ```\n\n    [r]: /u\n\n    <div>\n\n    t\n    ===\n\n    |a|\n    |-|\n\npara\n    lazy\n",
 ]
+# documents rendered once at the very start of the process and again after all the histories: a result may not depend on what the
+# process parsed before (memo tables at module level, cached helper results that a caller edits in place, ...)
+REPEAT_DOCS = [
+    "| k | v | n |\n|---|---|---|\n|| middle ||\n",
+    "para\n|| a | b |\n|---|---|---|\n|| 1 | 2 |\n",
+    "| a | b ||\n|---|---|---|\n| 1 || 3 |\n||||\n",
+    "a|b\n-|-\n|\n||\n|||\n\\||x\n",
+    "|a\\|b|c|\n|:-|-:|\n|`x|y`|z|\n",
+    "- [x]: /u 't'\n\n  [x] ![x]\n\n> ```\n> f\n> ```\n",
+    "*a **b** c* ~~d~~ `e` <http://f.g> <b> &amp; &#35; \\* [h](i \"j\") ![k](l)\n",
+    "1. a\n\n   b\n2. c\n\n***\n\nt\n===\n\n<div>\nx\n</div>\n\n    code\n",
+]
+
+
+def repeat_docs(rng):
+    docs = list(PROBES) + list(REPEAT_DOCS)
+    for _ in range(120):
+        docs.append(gens.rand_doc(rng, 6))
+    for _ in range(60):      # table rows with empty cells at either end (the enclosing-pipe stripping) next to ordinary rows
+        cols = rng.randint(1, 4)
+        rows = ["|" + "|".join(rng.choice(["a", "", " ", "b c", "\\|", "`|`"]) for _ in range(cols)) + "|"]
+        rows.append("|" + "|".join(rng.choice(["-", ":-", "-:", ":-:"]) for _ in range(cols)) + "|")
+        for _ in range(rng.randint(1, 4)):
+            rows.append(rng.choice(["|", "", "||"]) + "|".join(rng.choice(["x", "", " ", "y"]) for _ in range(rng.randint(1, cols + 1))) + rng.choice(["|", "", "||"]))
+        docs.append("\n".join(rows) + "\n")
+    return docs
+
+
+def render_all(docs):
+    from markdown_it import MarkdownIt
+
+    out = []
+    for preset in ("js-default", "commonmark"):
+        for d in docs:
+            md = MarkdownIt(preset)
+            if preset == "commonmark":
+                md.enable("table")
+            try:
+                out.append(md.render(d))
+            except Exception as ex:     # noqa: BLE001
+                out.append("EXC " + type(ex).__name__)
+    return out
+
+
+def memo_objects():
+    """functools caches hanging off markdown_it modules / classes: process-level state the model does not have"""
+    import sys
+
+    found = {}
+    for name, mod in sorted(sys.modules.items()):
+        if not (name == "markdown_it" or name.startswith("markdown_it.")) or mod is None:
+            continue
+        for k, v in vars(mod).items():
+            objs = [(k, v)]
+            if isinstance(v, type) and getattr(v, "__module__", "") == name:
+                objs += [(f"{k}.{ck}", cv) for ck, cv in vars(v).items()]
+            for kk, o in objs:
+                ci = getattr(o, "cache_info", None)
+                if callable(ci) and getattr(o, "__module__", "").startswith("markdown_it"):
+                    try:
+                        found[f"{name}.{kk}"] = ci().currsize
+                    except Exception:
+                        pass
+    return found
+
+
 OPT_CHOICES = [
     ("html", [True, False]), ("typographer", [True, False]), ("breaks", [True, False]), ("xhtmlOut", [True, False]),
     ("langPrefix", ["language-", "lang-", ""]), ("quotes", ["“”‘’", "«»„“"]), ("maxNesting", [3, 20, 100]),
@@ -281,6 +348,9 @@ def run(ctx: Ctx) -> None:
     quick = ctx.quick()
     rng = ctx.rng
     nh = 250 if quick else 6000
+    rdocs = repeat_docs(random.Random(ctx.seed * 7919 + 12))
+    memo_before = memo_objects()
+    first = render_all(rdocs)                 # before anything else has been parsed in this process
     before = module_snapshot()
     presets_before = copy.deepcopy(_PRESETS)
     drv = Driver()
@@ -305,6 +375,22 @@ def run(ctx: Ctx) -> None:
         ctx.sample({"history": lines[0][:300]})
     finally:
         drv.close()
+    # (ii-b) the same documents on fresh instances again, now that the process has a history
+    for rnd in (1, 2):
+        later = render_all(rdocs)
+        ctx.count(("repeat", rnd), nontrivial=True)
+        for i, (a, b) in enumerate(zip(first, later)):
+            if a != b:
+                ctx.fail("process-history-dependent", "a fresh instance renders a document differently once the process has parsed other "
+                         "documents (first render in the process vs a later one)",
+                         {"input": rdocs[i % len(rdocs)], "preset": ("js-default", "commonmark+table")[i // len(rdocs)], "first": a[:300],
+                          "later": b[:300], "round": rnd})
+                break
+    memo_after = memo_objects()
+    grown = sorted(k for k in memo_after if memo_after[k] != memo_before.get(k, 0))
+    ctx.cov["process_level_memos"] = memo_after
+    if grown:
+        ctx.mismatch("process-level memo tables fill up during parsing (state the model's instance does not have)", {"memos": grown})
     # (iii) module-level state untouched
     after = module_snapshot()
     changed = sorted(k for k in set(before) | set(after) if before.get(k) != after.get(k))
